@@ -4,7 +4,7 @@
    Definitions only. *)
 Require Import Cherab.Common.Qx.
 From Coq Require Import String Ascii.
-Require Import Cherab.Model.C19_Registry.
+Require Import Cherab.Model.C19_Registry Cherab.Model.C19_Shape Cherab.Model.C19_Args.
 Local Open Scope Z_scope.
 
 Definition element_seqb (a b : element) : bool := element_eqb a b.
@@ -188,6 +188,82 @@ Fixpoint run_dict (en : env) (d : list (pykey * Z)) (ops : list dop) : bool :=
   end.
 
 Definition check_dict (en : env) (ops : list dop) : bool := run_dict en [] ops.
+
+(* ---- argument-validation policy of the constructors and helpers (Model/C19_Args.v) ------------------------ *)
+Inductive parg := PA (v : pyval) | PRef (s : sref).       (* a plain value, or an object given by reference *)
+Definition parg_value (en : env) (a : parg) : option pyval :=
+  match a with PA v => Some v | PRef s => option_map PSpecies (resolve en s) end.
+Fixpoint parg_values (en : env) (l : list parg) : option (list pyval) :=
+  match l with
+  | [] => Some []
+  | a :: t => match parg_value en a, parg_values en t with Some v, Some r => Some (v :: r) | _, _ => None end
+  end.
+(* what the implementation did: built an object with these fields, or raised *)
+Inductive built :=
+| BElement (name sym : string) (z : Z) (w : Q)
+| BIsotope (name sym : string) (z : Z) (w : Q) (a : Z) (elem : sref)
+| BLine (elem : sref) (charge : Z) (tr : list tval)
+| BRaise (e : exc).
+Definition exc_eqb (a b : exc) : bool :=
+  match a, b with ExcValue, ExcValue | ExcType, ExcType | ExcOverflow, ExcOverflow | ExcAttribute, ExcAttribute => true | _, _ => false end.
+
+Definition check_init (en : env) (cls : Z) (args : list parg) (got : built) : bool :=
+  match parg_values en args with
+  | None => false
+  | Some vs =>
+      match cls with
+      | 0 => match element_init_py vs, got with
+             | Done e, BElement n s z w => element_seqb e (mkElement n s z w)
+             | Raise x, BRaise y => exc_eqb x y
+             | Outside, _ => true
+             | _, _ => false end
+      | 1 => match isotope_init_py vs, got with
+             | Done i, BIsotope n s z w a er =>
+                 match resolve en er with
+                 | Some (SE el) => isotope_seqb i (mkIsotope n s z w a el)
+                 | _ => false end
+             | Raise x, BRaise y => exc_eqb x y
+             | Outside, _ => true
+             | _, _ => false end
+      | _ => match line_init_py vs, got with
+             | Done l, BLine er c tr =>
+                 match resolve en er with
+                 | Some o => (species_seqb (l_element l) o && Z.eqb (l_charge l) c && tlist_eqb (l_transition l) tr)%bool
+                 | None => false end
+             | Raise x, BRaise y => exc_eqb x y
+             | Outside, _ => true
+             | _, _ => false end
+      end
+  end.
+(* 1 when the model makes no prediction for this call (counted in the evidence, not compared) *)
+Definition init_outside (en : env) (cls : Z) (args : list parg) : bool :=
+  match parg_values en args with
+  | None => false
+  | Some vs => match cls with
+               | 0 => match element_init_py vs with Outside => true | _ => false end
+               | 1 => match isotope_init_py vs with Outside => true | _ => false end
+               | _ => match line_init_py vs with Outside => true | _ => false end
+               end
+  end.
+
+Inductive helper_out := HBool (b : bool) | HStr (s : string) | HRaise (e : exc).
+Definition check_valid_charge_py (en : env) (e c : parg) (got : helper_out) : bool :=
+  match parg_value en e, parg_value en c with
+  | Some ev, Some cv =>
+      match valid_charge_py ev cv, got with
+      | Done b, HBool b' => Bool.eqb b b'
+      | Raise x, HRaise y => exc_eqb x y
+      | Outside, _ => true
+      | _, _ => false end
+  | _, _ => false
+  end.
+Definition check_encode_py (t : pyval) (got : helper_out) : bool :=
+  match encode_transition_py t, got with
+  | Done s, HStr s' => String.eqb s s'
+  | Raise x, HRaise y => exc_eqb x y
+  | Outside, _ => true
+  | _, _ => false
+  end.
 
 (* ---- the periodic table the Python side of the search uses must be the model's ---------------------- *)
 Fixpoint rows_eqb (a b : list (Z * string * string)) : bool :=
